@@ -27,13 +27,14 @@ from prompt_toolkit.utils import get_cwidth
 ID = "C10"
 DRIVER = "drv_c10"
 PROPS = ["Ptk.Props.C10", "Ptk.Props.C10Copy", "Ptk.Props.C10Diff", "Ptk.Props.C10Tok", "Ptk.Props.C10Stream",
-         "Ptk.Props.C10Bytes", "Ptk.Props.C10Wire", "Ptk.Props.C10Grammar", "Ptk.Props.C10Out", "Ptk.Props.C10Final"]
+         "Ptk.Props.C10Bytes", "Ptk.Props.C10Wire", "Ptk.Props.C10Grammar", "Ptk.Props.C10Out", "Ptk.Props.C10Final", "Ptk.Props.C10Select"]
 ANCHORS = ["src/prompt_toolkit/layout/screen.py", "src/prompt_toolkit/output/vt100.py",
            "src/prompt_toolkit/output/plain_text.py", "src/prompt_toolkit/output/flush_stdout.py",
            "src/prompt_toolkit/renderer.py", "src/prompt_toolkit/layout/containers.py",
            "src/prompt_toolkit/layout/controls.py", "src/prompt_toolkit/shortcuts/prompt.py",
            "src/prompt_toolkit/patch_stdout.py", "src/prompt_toolkit/formatted_text/utils.py",
-           "src/prompt_toolkit/utils.py", "src/prompt_toolkit/layout/utils.py"]
+           "src/prompt_toolkit/utils.py", "src/prompt_toolkit/layout/utils.py",
+           "src/prompt_toolkit/output/defaults.py"]
 #: functions of /repo whose bodies the Lean model follows line by line AND the correspondence exercises
 MODELLED = {
     "src/prompt_toolkit/layout/screen.py": ["Char.__init__", "get_display_width"],
@@ -60,6 +61,7 @@ MODELLED = {
     "src/prompt_toolkit/output/plain_text.py": ["PlainTextOutput.write", "PlainTextOutput.write_raw",
                                                 "PlainTextOutput.flush"],
     "src/prompt_toolkit/output/flush_stdout.py": ["flush_stdout"],
+    "src/prompt_toolkit/output/defaults.py": ["create_output"],
     "src/prompt_toolkit/shortcuts/prompt.py": ["PromptSession._dumb_prompt",
                                                "PromptSession._dumb_prompt.on_text_changed"],
     "src/prompt_toolkit/patch_stdout.py": ["StdoutProxy._write_and_flush.write_and_flush"],
@@ -83,7 +85,9 @@ LEVEL_TEXT = (
     "modelled and proved: every other emitter of Vt100_Output and Renderer.reset/erase (pure-ASCII sentences "
     "of the grammar for every amount/position/state), set_title (any title is exactly one OSC token), the "
     "dumb-terminal prompt (only the text's own newlines survive as controls), patch_stdout "
-    "raw/safe, print_formatted_text on Vt100_Output and PlainTextOutput. Tied to /repo on every run by "
+    "raw/safe, print_formatted_text on Vt100_Output and PlainTextOutput, and create_output()'s choice of the "
+    "writer class (a tty always gets the escaping Vt100_Output, PlainTextOutput only non-ttys, $TERM never "
+    "decides; decision table of the real function regenerated and re-decided). Tied to /repo on every run by "
     "regenerated tables (display table, emitter strings, code pages, probes), a differential correspondence "
     "(every code point incl. surrogates through Char and through every codec, copy_body, diff, print, real "
     "binary streams with every error handler, CPython's decoders vs the model's) and an end-to-end oracle on "
@@ -149,6 +153,9 @@ PARTIAL_SCOPE = ["repaired during this work (fixed entries in known_findings.jso
                  "(oracle kind 'tpl': hostile str and non-str values in prompt message, toolbar and printed text, "
                  "text and byte streams: no zero-width escape that the template did not mark, no control token "
                  "outside the renderer's repertoire)",
+                 "create_output(): POSIX branch only (the win32 branch cannot run here); StdoutProxy unwrapping is not "
+                 "modelled; the decision is probed with fake streams (all 270 combinations, kernel-checked) and driven on "
+                 "real ptys / pipes by the oracle (TERM in xterm, dumb, unknown, unset)",
                  "PlainTextOutput (stdout is not a terminal) does not escape by design: printPlain_adds_nothing only",
                  "Renderer.render's prelude (alternate screen, bracketed paste, mouse, cursor key mode, cursor shape) "
                  "and CPR requests: each emitter is modelled and proved (vtCall_ok), their sequencing inside render() "
@@ -2022,6 +2029,144 @@ def gen_tpl(tier, rng):
         yield c
 
 
+# ------------------------------------------------------------------ create_output(): which writer gets the terminal
+def _ob(x):
+    return "N" if x is None else ("1" if x else "0")
+
+
+def ml_mkout(case):
+    from prompt_toolkit.utils import is_dumb_terminal
+    return [f"mkout {_ob(a)} {_ob(so)} {_ob(se)} {enc_bool(p)} {enc_bool(is_dumb_terminal(t or ''))}"
+            for a, so, se, p, t in case["ops"]]
+
+
+def il_mkout(case):
+    import gen_c10
+    return [gen_c10.select_probe(a, so, se, p, t) for a, so, se, p, t in case["ops"]]
+
+
+def or_mkout(case):
+    import gen_c10
+    v = []
+    for a, so, se, p, t in case["ops"]:
+        cls = gen_c10.select_probe(a, so, se, p, t)
+        chosen = a if a is not None else so
+        if a is None and p and so is not True and se is True:
+            chosen = se
+        if chosen is True and cls != "Vt100_Output":
+            v.append({"signature": "create_output | a terminal stream was given a writer that does not escape",
+                      "msg": f"stdout={a} sys.stdout={so} sys.stderr={se} always_prefer_tty={p} TERM={t!r} -> {cls}"})
+            break
+    return v
+
+
+def _read_all(fd, first_timeout=1.0):
+    """everything that arrives on fd; every wait has a timeout"""
+    import select
+    data, timeout = b"", first_timeout
+    while True:
+        r, _, _ = select.select([fd], [], [], timeout)
+        if not r:
+            break
+        try:
+            chunk = os.read(fd, 65536)
+        except OSError:
+            break
+        if not chunk:
+            break
+        data += chunk
+        timeout = 0.05
+    return data
+
+
+def run_pty(case, frags):
+    """the REAL create_output() on a real pty slave (tty) or on the write end of a pipe, with $TERM set as
+    asked; `frags` printed through renderer.print_formatted_text; returns (class name, bytes that arrived)"""
+    import tty as _tty
+
+    from prompt_toolkit.output.defaults import create_output
+    from prompt_toolkit.renderer import print_formatted_text
+    old_term = os.environ.get("TERM")
+    rfd = wfd = None
+    f = None
+    try:
+        if case["tty"]:
+            rfd, wfd = os.openpty()
+            _tty.setraw(wfd)        # no output post-processing, no echo
+        else:
+            rfd, wfd = os.pipe()
+        if case["term"] is None:
+            os.environ.pop("TERM", None)
+        else:
+            os.environ["TERM"] = case["term"]
+        f = os.fdopen(wfd, "w", encoding="utf-8", errors="replace", closefd=True)
+        wfd = None
+        out = create_output(stdout=f)
+        print_formatted_text(out, [(s, t) for s, t in frags], ui_style())
+        out.flush()
+        data = _read_all(rfd, 1.0 if case["tty"] else 0.3)
+        return type(out).__name__, data
+    finally:
+        if old_term is None:
+            os.environ.pop("TERM", None)
+        else:
+            os.environ["TERM"] = old_term
+        for closer in ((lambda: f.close()) if f is not None else None,
+                       (lambda: os.close(wfd)) if wfd is not None else None,
+                       (lambda: os.close(rfd)) if rfd is not None else None):
+            if closer is not None:
+                try:
+                    closer()
+                except OSError:
+                    pass
+
+
+def ml_pty(case):
+    from prompt_toolkit.utils import is_dumb_terminal
+    return [f"mkout {_ob(case['tty'])} N N 0 {enc_bool(is_dumb_terminal(case['term'] or ''))}"]
+
+
+def il_pty(case):
+    return [run_pty(case, [["", "x"]])[0]]
+
+
+def or_pty(case):
+    """on a real terminal (pty) the text printed through the safe print path must not deliver its ESC: the bytes
+    that arrive at the master side are the same as for the text with every ESC already replaced by '?'; on a
+    pipe / file plain text is fine by design"""
+    v = []
+    frags = case["frags"]
+    cls, data = run_pty(case, frags)
+    if not case["tty"]:
+        return v
+    if cls != "Vt100_Output":
+        v.append({"signature": "create_output | a terminal stream was given a writer that does not escape",
+                  "msg": f"real pty, TERM={case['term']!r} -> {cls}"})
+    _, ref = run_pty(case, [[s, t.replace("\x1b", "?")] for s, t in frags])
+    if data != ref:
+        v.append({"signature": "print_formatted_text | ESC through the safe print path",
+                  "msg": f"real pty, TERM={case['term']!r}, writer {cls}: {frags!r} arrived as {data[:200]!r}"})
+    return v
+
+
+def gen_select(tier, rng):
+    import gen_c10
+    quick = tier == "quick"
+    ops = [[a, so, se, p, t] for a in (None, True, False) for so in (None, True, False) for se in (None, True, False)
+           for p in (False, True) for t in gen_c10.SELECT_TERMS + ["Unknown", "vt100", ""]]
+    for i in range(0, len(ops), 54):
+        yield {"kind": "mkout", "ops": ops[i:i + 54], "small": True}
+    texts = ["a\x1b[2Jb", "\x1b]0;EVIL\x07", "\x1bP+q544e\x1b\\", "plain", "\x1b"]
+    for tty_ in (True, False):
+        for term in ("xterm", "dumb", "unknown", None):
+            yield {"kind": "pty", "tty": tty_, "term": term, "small": True,
+                   "frags": [["", texts[(len(term or "") + tty_) % len(texts)]], ["class:a", "\x1b[31mred\x1b]2;t\x07"]]}
+    for _ in range(8 if quick else 200):
+        fr = [[s, t] for s, t in rand_ft(rng, 6, zwe_ok=False)]
+        yield {"kind": "pty", "tty": rng.random() < 0.8, "term": rng.choice(["xterm", "dumb", "unknown", None, "linux"]),
+               "frags": [[s, t[:60]] for s, t in fr]}
+
+
 # ------------------------------------------------------------------ dispatch
 KINDS = {
     "chars": (ml_chars, il_chars, or_chars),
@@ -2038,6 +2183,8 @@ KINDS = {
     "proxy": (ml_proxy, il_proxy, or_proxy),
     "printplain": (ml_printplain, il_printplain, or_printplain),
     "tpl": (lambda c: [], lambda c: [], or_tpl),
+    "mkout": (ml_mkout, il_mkout, or_mkout),
+    "pty": (ml_pty, il_pty, or_pty),
     "enc": (ml_enc, il_enc, or_enc),
     "encchars": (ml_encchars, il_encchars, or_encchars),
     "decode": (ml_decode, il_decode, lambda c: []),
@@ -2162,6 +2309,8 @@ def cases(tier, rng):
     yield from gen_out_writers(tier, rng)
     # ---- template interpolation (ANSI.format / ANSI % / HTML.format of hostile values), end to end
     yield from gen_tpl(tier, rng)
+    # ---- create_output(): which writer class gets a terminal / a pipe (fakes: all combinations; real ptys)
+    yield from gen_select(tier, rng)
     # ---- end to end
     for i in range(24 if quick else 300):
         c = gen_e2e_prompt(rng, i)
@@ -2400,6 +2549,8 @@ def case_text(case):
         return (m if isinstance(m, str) else "".join(t for _, t in m)) + "".join(d[0] for d in case["docs"])
     if k == "proxy":
         return case["text"]
+    if k == "pty":
+        return "".join(t for _, t in case["frags"])
     if k == "tpl":
         return case["vtext"]
     if k == "gram":
